@@ -190,13 +190,23 @@ func RunProxy(c *Ctx) error {
 			stored[h] = append(stored[h], b)
 		}
 	}
-	da.SetCurrent(1053)
+	// heights that hold the same blob more than once, under content-addressed ids (the id is listed once per copy)
+	da.ContentIDs = true
+	for h, idx := range map[uint64][]int{1054: {0, 1, 0}, 1055: {0, 0}, 1056: {0, 1, 2, 1, 0, 3}} {
+		for _, i := range idx {
+			b := []byte(fmt.Sprintf("dup-%d-%d", h, i))
+			da.Place(h, b)
+			stored[h] = append(stored[h], b)
+		}
+	}
+	da.ContentIDs = false
+	da.SetCurrent(1056)
 	type fcase struct {
 		h      uint64
 		fault  string
 		script string
 	}
-	fcases := []fcase{{1050, "notfound", ""}, {1999, "future", ""}, {1051, "ok", ""}, {1052, "ok", ""}, {1053, "ok", ""},
+	fcases := []fcase{{1050, "notfound", ""}, {1999, "future", ""}, {1051, "ok", ""}, {1052, "ok", ""}, {1053, "ok", ""}, {1054, "ok", ""}, {1055, "ok", ""}, {1056, "ok", ""},
 		{1051, "errlist", "errlist"}, {1053, "errlist", "errlist"}, {1051, "errchunk", "errchunk:0"}, {1052, "errchunk", "errchunk:1"}, {1053, "errchunk", "errchunk:0"}}
 	for _, fc := range fcases {
 		for _, p := range paths {
@@ -215,6 +225,32 @@ func RunProxy(c *Ctx) error {
 			}
 			c.Tr.Emit("PCall", world.F{"op": "fetch", "via": p.name, "nb": 0, "fit": 0, "fault": fc.fault, "code": codeNames[res.Code],
 				"count": 0, "nblobs": len(res.Data), "sent": 0, "blobsok": ok})
+		}
+	}
+	// Get with an id list chosen by the caller (repeats, any order): one blob per requested id, in the order asked
+	if idr, err := da.GetIDs(context.Background(), 1051, []byte(world.ChainID)); err == nil && len(idr.IDs) >= 3 {
+		for _, pick := range [][]int{{0}, {0, 1, 2}, {2, 0, 1}, {0, 1, 0}, {1, 1}, {2, 2, 2, 0}} {
+			var ids [][]byte
+			var want [][]byte
+			for _, i := range pick {
+				ids = append(ids, idr.IDs[i])
+				want = append(want, stored[1051][i])
+			}
+			for _, p := range paths {
+				got, err := p.da.Get(context.Background(), ids, []byte(world.ChainID))
+				code := "Success"
+				if err != nil {
+					code = "Error"
+				}
+				ok := len(got) == len(want)
+				for i := range got {
+					if ok && !bytes.Equal(got[i], want[i]) {
+						ok = false
+					}
+				}
+				c.Tr.Emit("PCall", world.F{"op": "get", "via": p.name, "nb": len(ids), "fit": 0, "fault": "ok", "code": code,
+					"count": 0, "nblobs": len(got), "sent": 0, "blobsok": ok})
+			}
 		}
 	}
 	c.Count("proxycases", seq)
